@@ -74,6 +74,7 @@ def check(rep: Report, ctx: Ctx) -> None:
     r128(rep, ctx)
     r129(rep, ctx)
     r130(rep, ctx)
+    r131(rep, ctx)
 
 
 def r18(rep: Report, ctx: Ctx) -> None:
@@ -1040,3 +1041,84 @@ def r130(rep: Report, ctx: Ctx) -> None:
         o.rule = "R1.30"
         rep.obligations.append(o)
     rep.funcs_seen |= sub.funcs_seen
+
+
+GATE_STAGES = [
+    # (stage, position of the tree argument, stage that produced it)
+    ("reduce_process_tree_to_preferred_logic_gates", 1,
+     "calculate_process_tree_from_event_sets"),
+    ("calculate_repeats_in_tree", 1,
+     "reduce_process_tree_to_preferred_logic_gates"),
+]
+
+
+def r131(rep: Report, ctx: Ctx) -> None:
+    """The gate tree of an event is mined, reduced to the preferred gates
+    and then given its repeat (branch-count) marker; a tree that leaves
+    ``calculate_logic_gates`` without having been through the last stage has
+    no BRANCH root, so an event that is always followed by N >= 2 copies of
+    one event type is drawn with a single successor and the diagram rejects
+    the very jobs it was learned from (seed C01-y).  Decided here: *that*
+    every tree handed out went through every stage, each stage working on
+    the observed sets and on the previous stage's result -- not what the
+    stages compute."""
+    rep.rule("R1.31", "every gate tree handed out was mined, reduced and "
+             "given its repeat marker from the observed sets", 4)
+    fi = ctx.func("calculate_logic_gates")
+    rep.funcs_seen.add(fi.qualname)
+    reach = ctx.reach(fi)
+    obs = fi.params()[0]
+    rets = [r for r in ast.walk(fi.node) if isinstance(r, ast.Return)]
+    some = False
+    for r in rets:
+        if r.value is None or (isinstance(r.value, ast.Constant)
+                               and r.value.value is None):
+            # "no tree" is tolerated only for an empty observation
+            gs = cguards(ctx, fi, r)
+            ln = f"len({obs})"
+            ok = any(g in (("cmp", "0", "Eq", ln), ("cmp", ln, "Eq", "0"),
+                           ("cmp", ln, "Lt", "1"), ("cmp", ln, "LtE", "0"),
+                           ("truth", obs, "0"), ("truth", ln, "0"))
+                     for g in gs)
+            rep.ob("R1.31", "no tree only when nothing was observed", ok,
+                   fi=fi, node=r,
+                   detail=f"return None under {[' '.join(g) for g in gs]}")
+            continue
+        some = True
+        v = reach.resolve_deep(r.value, depth=8, at=r)
+        top = v if isinstance(v, ast.Call) else None
+        ok = top is not None and call_name(top) == GATE_STAGES[-1][0]
+        rep.ob("R1.31", "a returned tree is the result of the repeat-marker "
+               "stage", ok, fi=fi, node=r,
+               detail=f"return value derives from '{unparse(v)[:110]}'")
+        if not ok:
+            continue
+        cur = top
+        for stage, pos, source in reversed(GATE_STAGES):
+            a0 = cur.args[0] if cur.args else None
+            a1 = cur.args[pos] if len(cur.args) > pos else None
+            good = isinstance(a0, ast.Name) and a0.id == obs and \
+                not reach_rebound(fi, obs)
+            inner = a1 if isinstance(a1, ast.Call) else None
+            chained = inner is not None and call_name(inner) == source
+            rep.ob("R1.31", f"{stage} works on the observed sets and on the "
+                   f"result of {source}", good and chained, fi=fi, node=r,
+                   detail=f"{stage}({unparse(a0) if a0 is not None else ''}, "
+                          f"{(unparse(a1) if a1 is not None else '')[:70]})")
+            if not chained:
+                break
+            cur = inner
+        else:
+            a0 = cur.args[0] if cur.args else None
+            rep.ob("R1.31", f"{GATE_STAGES[0][2]} mines the observed sets",
+                   isinstance(a0, ast.Name) and a0.id == obs, fi=fi, node=r,
+                   detail=unparse(cur)[:100])
+    if not some:
+        rep.ob("R1.31", "a tree is returned", False, fi=fi, node=fi.node,
+               detail="no return of a value")
+
+
+def reach_rebound(fi: FuncInfo, name: str) -> bool:
+    """``name`` (a parameter) is assigned somewhere in the function."""
+    return any(isinstance(n, ast.Name) and n.id == name
+               and isinstance(n.ctx, ast.Store) for n in ast.walk(fi.node))
